@@ -29,6 +29,7 @@ from falcon._typing import ProcessRequestMethod as PRequest
 from falcon._typing import ProcessResourceMethod as PResource
 from falcon._typing import ProcessResponseMethod as PResponse
 from falcon.constants import MEDIA_JSON
+from falcon.constants import MEDIA_MULTIPART
 from falcon.constants import MEDIA_XML
 from falcon.errors import CompatibilityError
 from falcon.errors import HTTPError
@@ -297,7 +298,13 @@ def default_serialize_error(req: Request, resp: Response, exception: HTTPError) 
         if options.xml_error_serialization
         else [MEDIA_JSON]
     )
-    media_handlers = [mt for mt in options.media_handlers if mt not in predefined]
+    # NOTE: The multipart form handler cannot serialize; never offer it as a
+    #   representation of an error.
+    media_handlers = [
+        mt
+        for mt in options.media_handlers
+        if mt not in predefined and mt != MEDIA_MULTIPART
+    ]
     # NOTE(caselit,vytas): Add the registered handlers after the predefined
     #   ones. This ensures that in the case of an equal match, the first one
     #   (JSON) is selected and that the q parameter is taken into consideration
